@@ -315,7 +315,8 @@ def run_c10(tier, seed):
             index.append((start, len(lines), r["sid"]))
             nsucc += r["rc"] == 0
             model_ok = r["case"]["phase"] == "imported"
-            if (r["rc"] == 0) != model_ok and r["case"]["meta"] != "badnumber" and len(drift) < 20:
+            # (a case that is the counterexample of a BROKEN design carries that design's outcome, not the shipped design's: no comparison)
+            if (r["rc"] == 0) != model_ok and r["case"]["meta"] != "badnumber" and "mutant" not in str(r["case"].get("origin", "")) and len(drift) < 20:
                 drift.append(dict(case=r["case"], rc=r["rc"], stderr=r["stderr"]))
             if r["rc"] == 0 and r["case"].get("after") and r["case"]["meta"] == "ok":
                 after = [e for e in r["post"] if e["ev"] == "RawDump" and e["r"] == "raw-before"][0]["db"].get("k0", {"as": -1, "at": -1, "ps": -1})
